@@ -1,5 +1,7 @@
 package pfcpiface
 
+import "github.com/omec-project/upf-epc/pfcpiface/metrics"
+
 // White-box observations for the verification harness (copied into the
 // scratch build only; never part of /repo).
 
@@ -48,4 +50,35 @@ func (p *PFCPIface) VerifTEIDsUsed() int {
 	g.lock.Lock()
 	defer g.lock.Unlock()
 	return len(g.usedMap)
+}
+
+// VerifSessionsGauge returns the summed pfcp_sessions gauge (-1 before init).
+func (p *PFCPIface) VerifSessionsGauge() float64 {
+	if p.node == nil {
+		return -1
+	}
+	return metrics.VerifSessionsGauge(p.node.metrics)
+}
+
+// VerifStoredSessions counts session records over all associations.
+func (p *PFCPIface) VerifStoredSessions() int {
+	if p.node == nil {
+		return -1
+	}
+	n := 0
+	p.node.pConns.Range(func(_, v interface{}) bool {
+		n += len(v.(*PFCPConn).store.GetAllSessions())
+		return true
+	})
+	return n
+}
+
+// VerifAssociations counts registered PFCP connections.
+func (p *PFCPIface) VerifAssociations() int {
+	if p.node == nil {
+		return -1
+	}
+	n := 0
+	p.node.pConns.Range(func(_, _ interface{}) bool { n++; return true })
+	return n
 }
